@@ -142,7 +142,7 @@ def check_history(ctx, c):
         return
     if e1 is not None:
         return ctx.skip("transform failed (%s) - judged by C01" % type(e1).__name__)
-    _, _, bad = call(est, "transform", c2, "test")
+    o2, _, bad = call(est, "transform", c2, "test")
     if bad:
         return
     if name in ("Wasserstein", "Sinkhorn") and p.get("input_method", "spmatrix") == "spmatrix":
@@ -152,9 +152,16 @@ def check_history(ctx, c):
         rp.shuffle(perm)
         inv = {old: new for new, old in enumerate(perm)}
         c3 = dict(c, vectors=[c["vectors"][old] for old in perm], test=[[[inv[j], v] for j, v in row] for row in c["train"]])
-        _, _, bad = call(est, "transform", c3, "test")
+        o3, e3, bad = call(est, "transform", c3, "test")
         if bad:
             return
+        if o2 is not None and o3 is not None and p.get("method") != "HeuristicLinearAlgebra":
+            sc = max(1.0, float(np.max(np.abs(o2))))
+            t3 = (1e-9 if p.get("method") == "LOT_exact" else 1e-6) * sc
+            if np.shape(o3) != np.shape(o2) or np.max(np.abs(np.asarray(o3) - np.asarray(o2))) > t3:
+                viol("transform-depends-on-earlier-call", "the same measures over a permuted vector table, transformed after a call with the original table, get different embeddings (%.3g)" % (
+                    float(np.max(np.abs(np.asarray(o3) - np.asarray(o2)))) if np.shape(o3) == np.shape(o2) else float("nan")))
+                return
     o1b, e1b, bad = call(est, "transform", c1, "test")
     if bad:
         return
@@ -177,11 +184,19 @@ def check_history(ctx, c):
         if e1c is not None or not zoo.rows_equal(zoo.as_rows(o1), zoo.as_rows(o1c), tol)[0]:
             viol("transform-after-failed-call-differs", "transform(X1) after a %s call differs from before" % ("raising" if eb is not None else "hostile"))
             return
-    # fresh clone, X1 alone
+    # fresh clone, each input alone: every output of the history must be what a single call gives
     okk, why = zoo.rows_equal(zoo.as_rows(o1), zoo.as_rows(_transform(est_b, c, name, c1)), 1e-9)
     if not okk:
         viol("clone-transform-differs", "transform(X1) late in a history differs from transform(X1) alone on an identically fitted clone: %s" % why)
         return
+    if o2 is not None:
+        est_c = zoo.make(c, V, n_tr)
+        Xc, kwc = zoo.data(c, "train", fit=True)
+        est_c.fit(Xc, **kwc)
+        okk, why = zoo.rows_equal(zoo.as_rows(o2), zoo.as_rows(_transform(est_c, c, name, c2)), 1e-9)
+        if not okk:
+            viol("clone-transform-differs", "transform(X2) after transform(X1) differs from transform(X2) alone on an identically fitted clone: %s" % why)
+            return
     if state["ok"]:
         ctx.ok(sg, not name.startswith("Slid"))
 
